@@ -102,6 +102,17 @@ Example C35_known_witness :
      end.
 Proof. vm_compute. repeat split. Qed.
 
+(* the witness of the known finding param_in_earlier_with_where:
+   MATCH (n) WITH n AS m WHERE $0 WITH m AS k RETURN id(k) with $0 = true keeps every node *)
+Example C35_known_witness_with :
+  let q := Q [SQ [CMatch false [(NP (Some 1) [] [], [])] None;
+                  CWith (PJ false [(IExpr (EVar 1), 2)] [] None None) (Some (EParam 0));
+                  CWith (PJ false [(IExpr (EVar 2), 3)] [] None None) None]
+                 (PJ false [(IExpr (EFn FId [EVar 3]), 100)] [] None None)] false in
+  Known_C35_query q = true
+  /\ eval_query_env ex_graph [(0, VBool true)] q = Ok [[VInt 1]; [VInt 2]; [VInt 3]].
+Proof. vm_compute. split; reflexivity. Qed.
+
 Print Assumptions C35_subst_counts.
 Print Assumptions C35_subst_stmt.
 Print Assumptions C35_subst_stmt_reference.
